@@ -24,6 +24,11 @@ pub struct EncCase {
     /// leave out the real builder calls whose value equals the builder's default (unless a noise call for
     /// that option was made before): exercises the defaults and "setter called twice" histories
     pub skipdef: bool,
+    /// which public entry point is used: 0 the builder; 1 `data::encode_data` (+ `errorcode::encode_error` and
+    /// `MatrixMap::new_with_codewords` for the symbol), only without FNC1 start; 2 the wrappers
+    /// `DataMatrix::encode` / `encode_gs1`, only with their fixed options (macros on, all modes, no ECI).
+    /// An entry that does not apply to the configuration falls back to the builder.
+    pub entry: u8,
 }
 
 impl EncCase {
@@ -41,6 +46,9 @@ impl EncCase {
         if self.skipdef {
             c = c.with("sd", 1);
         }
+        if self.entry != 0 {
+            c = c.with("entry", self.entry);
+        }
         c
     }
     pub fn from_case(c: &Case) -> EncCase {
@@ -54,6 +62,7 @@ impl EncCase {
             order: c.get_usize("order") as u8,
             prelude: c.get_usize("prelude") as u8,
             skipdef: c.get_bool("sd"),
+            entry: c.get_usize("entry") as u8,
         }
     }
     pub fn key(&self) -> u64 {
@@ -133,7 +142,61 @@ pub fn builder(c: &EncCase) -> Option<DataMatrixBuilder> {
     Some(b)
 }
 
+impl EncCase {
+    /// the entry point really used (see `entry`)
+    pub fn effective_entry(&self) -> u8 {
+        match self.entry {
+            1 if !self.fnc1 => 1,
+            2 if self.macros && self.mask == 63 && self.eci.is_none() => 2,
+            _ => 0,
+        }
+    }
+}
+
 pub fn do_encode(c: &EncCase, want_bitmap: bool) -> EncOut {
+    match c.effective_entry() {
+        1 => {
+            let Some(list) = list_from_spec(&c.list) else { return EncOut::BadSpec };
+            let (input, eci, mask, macros) = (&c.input, c.eci, c.mask, c.macros);
+            return match guard(|| {
+                datamatrix::data::encode_data(input, &list, eci, modes_from_mask(mask), macros).map(|(data, size)| {
+                    let mut all = data.clone();
+                    all.extend(datamatrix::errorcode::encode_error(&data, size));
+                    let (width, bits) = if want_bitmap {
+                        let bm = datamatrix::placement::MatrixMap::<bool>::new_with_codewords(&all, size).bitmap();
+                        (bm.width(), bm.bits().to_vec())
+                    } else {
+                        (0, vec![])
+                    };
+                    EncOk { size, data, all, width, bits }
+                })
+            }) {
+                Ok(Ok(e)) => EncOut::Ok(e),
+                Ok(Err(e)) => EncOut::Err(e),
+                Err(p) => EncOut::Panic(p),
+            };
+        }
+        2 => {
+            let Some(list) = list_from_spec(&c.list) else { return EncOut::BadSpec };
+            let (input, fnc1) = (&c.input, c.fnc1);
+            return match guard(|| {
+                (if fnc1 { datamatrix::DataMatrix::encode_gs1(input, list) } else { datamatrix::DataMatrix::encode(input, list) }).map(|dm| {
+                    let (width, bits) = if want_bitmap {
+                        let bm = dm.bitmap();
+                        (bm.width(), bm.bits().to_vec())
+                    } else {
+                        (0, vec![])
+                    };
+                    EncOk { size: dm.size, data: dm.data_codewords().to_vec(), all: dm.codewords().to_vec(), width, bits }
+                })
+            }) {
+                Ok(Ok(e)) => EncOut::Ok(e),
+                Ok(Err(e)) => EncOut::Err(e),
+                Err(p) => EncOut::Panic(p),
+            };
+        }
+        _ => {}
+    }
     let Some(b) = builder(c) else { return EncOut::BadSpec };
     let input = &c.input;
     let eci = c.eci;
@@ -157,7 +220,13 @@ pub fn do_encode(c: &EncCase, want_bitmap: bool) -> EncOut {
 pub fn gen_case(rng: &mut Rng, max_len: usize) -> EncCase {
     let input = inputs::gen_input(rng, max_len);
     let (list, mask) = if rng.chance(1, 4) { ("default".to_string(), 63) } else { (inputs::gen_list_spec(rng), inputs::gen_mask(rng)) };
-    EncCase { input, list, mask, macros: rng.chance(1, 2), fnc1: rng.chance(1, 8), eci: None, order: if rng.chance(1, 2) { 0 } else { rng.below(24) as u8 }, prelude: if rng.chance(3, 4) { 0 } else { rng.below(16) as u8 }, skipdef: rng.chance(1, 3) }
+    let mut c = EncCase { input, list, mask, macros: rng.chance(1, 2), fnc1: rng.chance(1, 8), eci: None, order: if rng.chance(1, 2) { 0 } else { rng.below(24) as u8 }, prelude: if rng.chance(3, 4) { 0 } else { rng.below(16) as u8 }, skipdef: rng.chance(1, 3), entry: 0 };
+    // the other public entry points carry the same promises: use them for a quarter of the cases where they apply
+    if rng.chance(1, 4) {
+        c.entry = rng.range(1, 2) as u8;
+        c.entry = c.effective_entry();
+    }
+    c
 }
 
 /// coverage tags of one stream, from its R-DEC event log
